@@ -13,6 +13,12 @@ pairs:  observed-vs-observed runs that differ in free text only: (a) solvable bl
         and with hostile long names / descriptions; same lists and identical series are required
         (clause "comments never alter which equations exist or their solution"); TLC judges the logged
         Booleans (event Pair)
+model:  spec/ModelText.tla (actions Describe(slot, class), Main): TLC enumerates the assignments of hostile
+        free-text classes (the library's own tag EXOGENOUS in every case variant, the marker line, MaxTime,
+        Err_Tolerance, '=') to the slots through which free text reaches the model's final text (descriptions
+        of a simultaneous / lagged / exogenous / decorative variable, sector long names); each is built on
+        the real Model next to its twin with plain texts; TLC (event Model) judges the classes of the slot
+        variables in the final text against TextOf/MainOp and the whole-run comparison
 
 Readings (the weaker one where the statement leaves a choice):
 * "right-hand side unchanged in meaning": the stored text equals the written right-hand side up to
@@ -28,7 +34,8 @@ replaced by plain words; if the violation disappears the signature is
 otherwise, if it disappears when also the free text with line-separator characters (classes sep*) is
 replaced: 'line-separator-character-in-free-text';
 otherwise: 'default-t-added-although-user-defines-time-axis' when the block defines t / t_minus_1 and
-the observed simultaneous list nevertheless holds t = k; else the signature spells the line forms.
+the observed simultaneous list nevertheless holds t = k; else the signature spells the line forms.  Model events: 'model-free-text-not-inert:<classes>' (the twin
+differs in the free texts only).
 """
 import json
 import random
@@ -42,6 +49,9 @@ DRIFT = {'o': 'list_or_message_order'}
 SIG_MARKER = 'marker-word-in-trailing-comment'
 SIG_TIME = 'default-t-added-although-user-defines-time-axis'
 SIG_SEP = 'line-separator-character-in-free-text'
+SIG_MODEL = 'model-free-text-not-inert:'       # + the classes of the free texts of the model
+TAG_CLASSES = ('exoU', 'exoM', 'tagline', 'pmax', 'ptol')
+MARKER_WORD_CLASSES = ('exo', 'exoU', 'exoM', 'tagline')
 
 ONE_EQ = ('eq', 'lag1', 'lag2', 'lag3', 'ic', 'maxtime', 'errtol', 'usert')
 
@@ -52,11 +62,15 @@ COMMENTS = [
     {'plain': 'household consumption', 'eq': 'where a = b + c', 'hash': 'see # note #2',
      'digits': '12345 0.5 (0) 1e-3', 'exo': 'an exogenous shock',
      'sepeq': 'the 2015 version had<S> q = 0.25 * y', 'sepic': 'the 2015 version started from<S> x(0) = 0.',
-     'sepexo': 'tax rule<S> (the rate is exogenous in later versions)', 'sepplain': 'tax rule<S> flat rate'},
+     'sepexo': 'tax rule<S> (the rate is exogenous in later versions)', 'sepplain': 'tax rule<S> flat rate',
+     'exoU': 'labour supply is not EXOGENOUS here', 'exoM': 'Exogenous demand',
+     'tagline': 'see # Exogenous Variables', 'pmax': 'MaxTime = 9', 'ptol': 'Err_Tolerance = 1'},
     {'plain': 'Lagged value (previous period)', 'eq': 'x=1', 'hash': '## ## #',
      'digits': '42 (k-1) 2.', 'exo': 'Exogenous demand, G = 20 #1',
      'sepeq': 'was<S>x = 7', 'sepic': 'init<S>z(0)=1<S>MaxTime = 9', 'sepexo': 'note<S># Exogenous Variables',
-     'sepplain': 'a<S>b<S><S>c'},
+     'sepplain': 'a<S>b<S><S>c',
+     'exoU': 'EXOGENOUS', 'exoM': 'see Exogenous Variables', 'tagline': '# Exogenous Variables',
+     'pmax': 'uses MaxTime=1', 'ptol': 'Err_Tolerance=1e-2'},
 ]
 # what str.splitlines() (and text tools built like it) cuts at, besides '\n': form feed, vertical tab, the
 # ASCII file / group / record separators, NEL, the Unicode line / paragraph separators, a bare carriage return
@@ -194,7 +208,7 @@ def execute(forms, variant=0):
 # --------------------------------------------------------------------------------------
 
 def has_marker_text(forms):
-    return any(f['cc'] == 'exo' for f in forms)
+    return any(f['cc'] in MARKER_WORD_CLASSES for f in forms)
 
 
 def user_time(forms):
@@ -206,7 +220,7 @@ def has_sep_text(forms):
     return any(f['cc'] in SEP_CLASSES for f in forms)
 
 
-def cured(forms, classes=('exo',)):
+def cured(forms, classes=MARKER_WORD_CLASSES):
     return [dict(f, cc='plain') if f['cc'] in classes else f for f in forms]
 
 
@@ -267,9 +281,9 @@ def judge_blocks(rep, items):
             for n, i in enumerate(idx):
                 out[i] = not cv[n].startswith('property')
         return out
-    cure_marker = cure_batch([i for i, _ in bad if has_marker_text(items[i][0])], ('exo',), 'c14cure')
+    cure_marker = cure_batch([i for i, _ in bad if has_marker_text(items[i][0])], MARKER_WORD_CLASSES, 'c14cure')
     cure_sep = cure_batch([i for i, _ in bad if has_sep_text(items[i][0]) and not cure_marker.get(i)],
-                          ('exo',) + SEP_CLASSES, 'c14cure')
+                          MARKER_WORD_CLASSES + SEP_CLASSES, 'c14cure')
     for i, letters in bad:
         forms, variant = items[i]
         ev = traces[i][1][0]
@@ -395,7 +409,7 @@ NAME_TEXT = [
 ]
 
 
-def build_sim(names, extras=True, max_time=6):
+def build_sim(names, extras=True, max_time=3):
     """The calls of sfc_models.gl_book.chapter3.SIM.build_model with the long names (and the
     descriptions of two added decorative variables) taken from `names`; returns (ok, lists, series, exc, text)."""
     from sfc_models.models import Model, Country
@@ -429,7 +443,7 @@ def check_sim_reference():
     try:
         from sfc_models.gl_book.chapter3 import SIM
         mod = SIM('C').build_model()
-        mod.MaxTime = 6
+        mod.MaxTime = 3
         ref_text = mod.main()
         ref_series = _series(mod.EquationSolver.TimeSeries)
     except Exception as e:
@@ -535,9 +549,9 @@ def judge_pairs(rep, cases):
             for n, i in enumerate(idx):
                 out[i] = not cv[n].startswith('property')
         return out
-    cure_marker = cure_batch([i for i in bad if pair_has(cases[i], ('exo',))], ('exo',))
+    cure_marker = cure_batch([i for i in bad if pair_has(cases[i], MARKER_WORD_CLASSES)], MARKER_WORD_CLASSES)
     cure_sep = cure_batch([i for i in bad if pair_has(cases[i], SEP_CLASSES) and not cure_marker.get(i)],
-                          ('exo',) + SEP_CLASSES)
+                          MARKER_WORD_CLASSES + SEP_CLASSES)
     for i in bad:
         c = cases[i]
         letters = split_verdict(verdicts[i])[1]
@@ -552,6 +566,128 @@ def judge_pairs(rep, cases):
             rep.violate(CLAUSE.get(ch, ch), sig, case,
                         detail='%s pair: %s; hostile run: %s' % (c[0], json.dumps(traces[i][1][0]),
                                                                  info[i].get('hostile_exception', '')))
+
+
+# --------------------------------------------------------------------------------------
+# model text: behaviours of spec/ModelText.tla (free-text classes in the slots of a model)
+# --------------------------------------------------------------------------------------
+
+# spec/ModelTextConsts.tla!MC_SlotSeq: slot id -> full name of the variable whose row carries the text
+SLOT_VAR = {'d_endo': 'HH__AlphaIncome', 'd_lag': 'HH__LAG_F', 'd_deco': 'HH__TWICE', 'n_hh': 'LAB__SUP_HH',
+            'n_bus': 'GOOD__SUP_BUS', 'd_exo': 'GOV__DEM_GOOD', 'n_rest': ''}
+MODEL_MAX_TIME = 2        # ModelMaxTime of the cfg files
+
+
+def decode_desc(code):
+    """'slot=class;...' as printed by MC_ModelText!Emit -> [{'slot':.., 'cc':..}, ...]"""
+    return [{'slot': p.split('=')[0], 'cc': p.split('=')[1]} for p in code.split(';') if p]
+
+
+def build_slots(desc, variant):
+    """The calls of gl_book.chapter3.SIM.build_model, every slot of ModelTextConsts!MC_SlotSeq given a free
+    text of its class (plain when not in `desc`): long names as constructor arguments, descriptions through
+    AddVariable on a simultaneous (AlphaIncome), a lagged (LAG_F), an exogenous (DEM_GOOD) and a decorative
+    (TWICE) variable.  -> (ok, parser projection of the final text, solver lists, series, exception)"""
+    from sfc_models.models import Model, Country
+    from sfc_models.sector import Market
+    from sfc_models.sector_definitions import ConsolidatedGovernment, Household, FixedMarginBusiness, TaxFlow
+    cls = {d['slot']: d['cc'] for d in desc}
+    text = {k: free_text(COMMENTS, cls.get(k, 'plain'), variant) for k in SLOT_VAR}
+    mod = None
+    try:
+        mod = Model()
+        country = Country(mod, 'C', text['n_rest'])
+        gov = ConsolidatedGovernment(country, 'GOV', text['n_rest'])
+        hh = Household(country, 'HH', text['n_hh'], alpha_income=.6, alpha_fin=.4)
+        FixedMarginBusiness(country, 'BUS', text['n_bus'])
+        TaxFlow(country, 'TF', text['n_rest'], taxrate=.2)
+        Market(country, 'LAB', text['n_rest'])
+        Market(country, 'GOOD', text['n_rest'])
+        gov.AddVariable('DEM_GOOD', text['d_exo'], '0.0')
+        gov.SetExogenous('DEM_GOOD', '[0.,] + [20.,] * 105')
+        hh.AddVariable('AlphaIncome', text['d_endo'], '0.6000')
+        hh.AddVariable('LAG_F', text['d_lag'], 'F(k-1)')
+        hh.AddVariable('TWICE', text['d_deco'], '2*AfterTax')
+        mod.MaxTime = MODEL_MAX_TIME
+        final = mod.main()
+        s = mod.EquationSolver
+        return True, project(observe(final)), _solver_lists(s), _series(s.TimeSeries), '', final
+    except Exception as e:
+        final = getattr(mod, 'FinalEquations', '') if mod is not None else ''
+        final = final if isinstance(final, str) else ''
+        # the text may exist although the run failed: what the parser makes of it is still observed
+        obs = project(observe(final)) if final else dict(observe('MaxTime = x'), exc=type(e).__name__)
+        return False, dict(obs, ok=False), {}, {}, type(e).__name__ + ': ' + str(e)[:120], final
+
+
+def project(obs):
+    """parser projection restricted to the slot variables (and the time axis)"""
+    keep = set(SLOT_VAR.values()) | {'t'}
+    out = dict(obs)
+    for k in ('endo', 'lag', 'exo', 'ic'):
+        out[k] = [e for e in obs[k] if e['var'] in keep]
+    return out
+
+
+_plain_slots = {}
+
+
+def execute_model(desc, variant):
+    """One behaviour of ModelText on the real Model: the Model event of the trace."""
+    if 'p' not in _plain_slots:
+        _plain_slots['p'] = build_slots([], 0)
+    ok_a, obs_a, lists_a, ser_a, exc_a, _t = _plain_slots['p']
+    if not ok_a:
+        raise core.MachineryError('the model with plain free texts does not run: ' + exc_a)
+    ok_b, obs_b, lists_b, ser_b, exc_b, text_b = build_slots(desc, variant)
+    ev = {'ev': 'Model', 'desc': desc, 'obs': obs_b, 'twin': obs_a, 'okA': ok_a, 'okB': ok_b,
+          'lists': lists_a == lists_b, 'series': ser_a == ser_b}
+    return ev, exc_b, text_b
+
+
+def judge_models(rep, items):
+    """items: list of (desc, variant)"""
+    traces, extra = [], []
+    for i, (desc, variant) in enumerate(items):
+        ev, exc, text = execute_model(desc, variant)
+        traces.append((i, [ev]))
+        extra.append((exc, text))
+        rep.add_case({'model': desc, 'variant': variant}, len(desc) > 0)
+    verdicts = _validate(traces, rep, tag='c14model')
+    rep.traces += len(traces)
+    for i, (desc, variant) in enumerate(items):
+        kind, letters = split_verdict(verdicts[i])
+        case = {'model': desc, 'variant': variant, 'observed': traces[i][1][0], 'hostile_exception': extra[i][0]}
+        if kind == 'drift':
+            for c in letters:
+                rep.add_drift(DRIFT.get(c, c), case)
+        if kind != 'property':
+            continue
+        # the twin is the same model with plain texts: the free text is the only difference
+        sig = SIG_MODEL + '+'.join(sorted(set(d['cc'] for d in desc)))
+        marker = extra[i][1].split(MARKER_LINE)
+        for c in letters:
+            rep.violate(CLAUSE.get(c, c), sig, case,
+                        detail='model with free texts %s -> %s; after the marker: %r' % (
+                            json.dumps(desc), extra[i][0] or json.dumps(traces[i][1][0]['obs'])[:200],
+                            marker[1][:300] if len(marker) > 1 else ''))
+
+
+def model_behaviours(rep):
+    cfg = 'MC_ModelText_quick.cfg' if rep.tier == 'quick' else 'MC_ModelText_thorough.cfg'
+    res = core.tlc('MC_ModelText', cfg, workers=1, tag='c14m', want_printed=False, heap='2g')
+    if res.violated:
+        raise core.MachineryError('spec invariant %s violated in %s' % (res.violated, cfg))
+    rep.add_tlc(res, 'exhaustive ' + cfg)
+    codes = re.findall(r'<<\s*"MBEH",\s*"([^"]*)"\s*>>', res.stdout)
+    if not codes or 2 * len(set(codes)) != res.distinct:
+        raise core.MachineryError('%s: read %d distinct behaviours from TLC output, %d states' % (
+            cfg, len(set(codes)), res.distinct))
+    rep.extra.setdefault('behaviours_emitted', {})[cfg] = len(codes)
+    # quick: the two spellings alternate; thorough: both
+    if rep.tier == 'quick':
+        return [(decode_desc(c), n % 2) for n, c in enumerate(codes)]
+    return [(decode_desc(c), v) for c in codes for v in (0, 1)]
 
 
 # --------------------------------------------------------------------------------------
@@ -610,6 +746,9 @@ def run(rep):
         check_sim_reference()
         judge_pairs(rep, [c for c in cases if c[0] == 'model'])
         rep.extra['model_pairs'] = sum(1 for c in cases if c[0] == 'model')
+        items = model_behaviours(rep)
+        judge_models(rep, items)
+        rep.extra['model_text_builds'] = len(items)
     except core.MachineryError as e:
         if not rep.violations:
             raise
@@ -622,7 +761,10 @@ def replay(path):
         data = json.load(f)
     case = data['case']
     rep = core.Report('C14', 'quick', data.get('seed', 0))
-    if 'pair' in case:
+    if 'model' in case:
+        judge_models(rep, [(case['model'], case.get('variant', 0))])
+        print(json.dumps({'observed_now': execute_model(case['model'], case.get('variant', 0))[0]}, indent=1)[:3000])
+    elif 'pair' in case:
         c = tuple(case['case'])
         judge_pairs(rep, [c])
         ev, info = run_pair(c)
